@@ -712,3 +712,131 @@ func setInlineKeep(prog *core.Program) {
 	}
 	prog.InlineKeep = keep
 }
+
+// vcase is one possible value of an expression at a vertex: the defining
+// expression and the vertex of the definition (whose dominating facts
+// describe when the value applies).
+type vcase struct {
+	Expr ast.Expr
+	V    *core.V
+}
+
+// valueCases resolves a local variable used at vertex `at` to the right-hand
+// sides of the assignments that can reach it (tuple assignments position by
+// position), following plain copies up to depth.  Anything else is its own
+// single case.  This makes rules that read "the argument of the call"
+// independent of whether the value is written at the call or chosen earlier
+// in a branch (tp, f2, f3 = 1, uint64(entry.Pos), ...).
+func valueCases(g *core.Graph, at *core.V, e ast.Expr, depth int) []vcase {
+	info := g.Info
+	id, ok := ast.Unparen(e).(*ast.Ident)
+	if !ok || depth <= 0 {
+		return []vcase{{e, at}}
+	}
+	obj, isVar := info.ObjectOf(id).(*types.Var)
+	if !isVar || obj.IsField() || obj.Parent() == nil || obj.Parent() == obj.Pkg().Scope() {
+		return []vcase{{e, at}}
+	}
+	defs := defVertices(g, obj)
+	var out []vcase
+	for _, d := range defs {
+		var others []*core.V
+		for _, x := range defs {
+			if x != d {
+				others = append(others, x)
+			}
+		}
+		if d != at && !g.ReachFrom(d, false, core.AvoidVs(others...))[at] {
+			continue
+		}
+		var rhs ast.Expr
+		switch s := d.AST.(type) {
+		case *ast.AssignStmt:
+			if len(s.Lhs) == len(s.Rhs) && (s.Tok == token.ASSIGN || s.Tok == token.DEFINE) {
+				for i, l := range s.Lhs {
+					if lid, ok := ast.Unparen(l).(*ast.Ident); ok && info.ObjectOf(lid) == obj {
+						rhs = s.Rhs[i]
+					}
+				}
+			}
+		case *ast.ValueSpec:
+			if len(s.Values) == len(s.Names) {
+				for i, n := range s.Names {
+					if info.ObjectOf(n) == obj {
+						rhs = s.Values[i]
+					}
+				}
+			}
+		}
+		if rhs == nil {
+			return []vcase{{e, at}} // a definition the resolution does not understand
+		}
+		for _, c := range valueCases(g, d, rhs, depth-1) {
+			out = append(out, c)
+		}
+	}
+	if len(out) == 0 {
+		return []vcase{{e, at}}
+	}
+	return out
+}
+
+// xrefStreamLoops finds the two loops of writeXRefStream by their role: the
+// writing loop is the one whose body emits fields (encodeInt64), the sizing
+// loop the other loop over the object numbers that comes before it.
+func xrefStreamLoops(g *core.Graph) (sizing, writing *core.V) {
+	for _, h := range loopHeads(g) {
+		body := g.ReachFrom(succ(h, core.EdgeTrue), true, core.AvoidVs(h))
+		for v := range body {
+			if v.AST != nil && len(core.CallsTo(g.Info, v.AST, false, "pdf.encodeInt64")) > 0 {
+				writing = h
+			}
+		}
+		if writing != nil {
+			break
+		}
+	}
+	if writing == nil {
+		core.Undecided("writeXRefStream: no loop emits fields with encodeInt64")
+	}
+	for _, h := range loopHeads(g) {
+		if h == writing || h.Cond == nil || h.Cond.Expr == nil {
+			continue
+		}
+		if strings.Contains(core.ExprStr(h.Cond.Expr), "nextRef") && g.Dominates(h, writing) {
+			sizing = h
+		}
+	}
+	if sizing == nil {
+		core.Undecided("writeXRefStream: no sizing loop over the object numbers in front of the writing loop")
+	}
+	return sizing, writing
+}
+
+// enclosingFor returns the innermost for statement of root whose subtree
+// contains the node (by identity, so that nodes of inlined bodies, whose
+// positions lie elsewhere, are found).
+func enclosingFor(root ast.Node, node ast.Node) *ast.ForStmt {
+	if node == nil {
+		return nil
+	}
+	var stack []ast.Node
+	var found *ast.ForStmt
+	ast.Inspect(root, func(n ast.Node) bool {
+		if n == nil {
+			stack = stack[:len(stack)-1]
+			return true
+		}
+		stack = append(stack, n)
+		if n == node {
+			for i := len(stack) - 1; i >= 0; i-- {
+				if fs, ok := stack[i].(*ast.ForStmt); ok {
+					found = fs
+					break
+				}
+			}
+		}
+		return true
+	})
+	return found
+}
